@@ -77,7 +77,19 @@ def at_expectations(bin_name):
 DIAG = re.compile(r"^error(?:\[E\d+\])?: (.*)\n\s*--> ([^:\n]+):(\d+):(\d+)", re.M)
 
 
-def check_locations(bin_name, log):
+def _matches(exp, text, alts):
+    """`exp` (part of a message of the pinned crate) occurs in `text`, literally or through the relabelling
+    `alts` (old message -> texts the macro uses for it now) that the in-process engine observed"""
+    if exp in text:
+        return True
+    for old, news in (alts or {}).items():
+        if exp in old or old in exp:
+            if any(n and n in text for n in news):
+                return True
+    return False
+
+
+def check_locations(bin_name, log, alts=None):
     """returns the list of unmet `AT` expectations"""
     got = [(m.group(1), int(m.group(3)), int(m.group(4))) for m in DIAG.finditer(log) if m.group(2).endswith(bin_name + ".rs")]
     bad = []
@@ -85,7 +97,7 @@ def check_locations(bin_name, log):
         if where is None:
             bad.append("probe is malformed: `%s` must occur exactly once and contain ^" % needle)
             continue
-        hits = [g for g in got if msg in g[0]]
+        hits = [g for g in got if _matches(msg, g[0], alts)]
         if not any((g[1], g[2]) == where for g in hits):
             near = ", ".join("%d:%d" % (g[1], g[2]) for g in hits) or "nowhere"
             bad.append("diagnostic %r is expected at %d:%d (`%s`) but is reported at %s" % (msg[:50], where[0], where[1], needle, near))
@@ -109,7 +121,7 @@ def build_all():
     return rc, log
 
 
-def run(prop, workdir):
+def run(prop, workdir, alts=None):
     """returns (failures, coverage); a failure is (bin, why, log)"""
     prepare()
     failures = []
@@ -126,10 +138,10 @@ def run(prop, workdir):
             if rc == 0:
                 failures.append((b, "negative probe compiles: the misuse / privacy violation it contains is no longer rejected", src))
             else:
-                missing = [e for e in exp if e not in log]
+                missing = [e for e in exp if not _matches(e, log, alts)]
                 if missing:
                     failures.append((b, "negative probe is rejected, but not with the expected diagnostic %r" % missing[0], src))
-                wrong = check_locations(b, log)
+                wrong = check_locations(b, log, alts)
                 if wrong:
                     failures.append((b, "diagnostic not at the offending tokens: " + wrong[0] + (" (+%d more)" % (len(wrong) - 1) if len(wrong) > 1 else ""), src))
             n_at = len(at_expectations(b))
